@@ -10,6 +10,9 @@ Open Scope N_scope.
 Definition tables : Type :=
   list (N * list N) * list (N * list N) * list (Z * list N) * list (bool * N * list N).
 
+Definition mkT (a b : list (N * list N)) (c : list (Z * list N)) (d : list (bool * N * list N)) : tables := (a, b, c, d).
+Definition T0 : tables := mkT [] [] [] [].
+
 Fixpoint lookupN {V} (t : list (N * V)) (k : N) : option V :=
   match t with [] => None | (k', v) :: r => if k' =? k then Some v else lookupN r k end.
 Fixpoint lookupZ {V} (t : list (Z * V)) (k : Z) : option V :=
